@@ -2,7 +2,7 @@
    Statements only; proofs in Proofs/C17/*.v.  UARTSerializer_clock, UARTDeserializer_clock, ClockSyncFSM_clock, Reg_clock and the
    gate functions are REGENERATED from /repo on every run (Gen/Seq.v, Gen/Prims.v); Model/Uart.v wraps them in the cycle semantics. *)
 From V Require Import Base.Bits Gen.Seq Model.Uart Spec.C17
-  Proofs.C17.Ser Proofs.C17.SwRx Proofs.C17.Des Proofs.C17.Refute Proofs.C17.Cgr Proofs.C17.LinkBounded.
+  Proofs.C17.Ser Proofs.C17.SwRx Proofs.C17.Des Proofs.C17.Refute Proofs.C17.Cgr Proofs.C17.LinkBounded Proofs.C17.Link.
 
 (* ---- the line is 8N1.  For every byte value, every state of the READY serializer, EVERY eleven baud intervals
    (gaps g0..g10 between pulses: any phase g0, any spacing, gap 0 included — stronger than "period P >= 2"), whatever the
@@ -72,10 +72,43 @@ Theorem sample_reads_level :
     nth_error (hold (repeat (2 * n)%nat 10) (frame8n1 b) ++ rest) (n + 1 + k * (2 * n)) = nth_error (frame8n1 b) k.
 Proof. exact sample_reads_level_lemma. Qed.
 
+(* ---- THE LINK, universally: serializer -> ClockGenerationAndRecovery -> deserializer (Model/Uart.v link_step), from power-up,
+   for EVERY half period n >= 2 (every ratio >= 4; bit period P = 2n), EVERY producer behaviour (any byte values, any gaps including
+   back-to-back with valid held high, valid/v arbitrary while the serializer is busy) and every consumer that keeps up.
+   "keeps_up 2 evs" (Spec/C17.v) is the monitor form of: between two consecutive frame completions (clock_desync pulses, both edges
+   included) the consumer's ready is high at two clock edges at least - exactly the guard of des_frame;  "hc_run 2 evs = 2" says the
+   same for the stretch after the last completion.  evs are read off wires (clock_desync, ready). *)
+
+(* safety, at every moment: accepted = delivered ++ (at most two bytes still in the pipeline): nothing lost, duplicated, altered, reordered *)
+Theorem link_never_loses :
+  forall (n : Z) (ins : list link_in),
+    2 <= n -> Forall (fun i => 0 <= li_v i < 256) ins -> keeps_up 2 (link_events n link_init ins) ->
+    exists pend, link_accepted n link_init ins = link_delivered n link_init ins ++ pend /\ (length pend <= 2)%nat.
+Proof. exact link_delivers_safety. Qed.
+
+(* delivery: once the producer has been quiet for 12 bit periods + 8 clocks, every accepted byte HAS been delivered, once, unchanged, in order *)
+Theorem link_delivers :
+  forall (n : Z) (ins quiet : list link_in),
+    2 <= n -> Forall (fun i => 0 <= li_v i < 256) ins -> Forall quiet_in quiet -> 24 * n + 8 <= Z.of_nat (length quiet) ->
+    let evs := link_events n link_init (ins ++ quiet) in
+    keeps_up 2 evs -> hc_run 2 evs = 2 ->
+    link_delivered n link_init (ins ++ quiet) = link_accepted n link_init (ins ++ quiet)
+    /\ link_accepted n link_init (ins ++ quiet) = link_accepted n link_init ins.
+Proof. exact link_delivers_lemma. Qed.
+
+(* headline corollary: an always-ready consumer *)
+Theorem link_delivers_always_ready :
+  forall (n : Z) (ins quiet : list link_in),
+    2 <= n -> Forall (fun i => 0 <= li_v i < 256) ins -> Forall quiet_in quiet -> 24 * n + 8 <= Z.of_nat (length quiet) ->
+    Forall (fun i => li_ready i <> 0) (ins ++ quiet) ->
+    link_delivered n link_init (ins ++ quiet) = link_accepted n link_init (ins ++ quiet)
+    /\ link_accepted n link_init (ins ++ quiet) = link_accepted n link_init ins.
+Proof. exact link_delivers_ready_lemma. Qed.
+
 (* composition of the whole link model (serializer -> clock generation and recovery -> deserializer), PARTIAL: by exhaustive
    evaluation for all 256 byte values and the half periods 2 <= n <= 10 (one byte) / 2 <= n <= 5 (two bytes back to back), from
-   power-up with an always-ready consumer.  The composition for every n, every byte sequence and every gap is NOT proved (it is
-   covered by the differential sweep on the real blocks); see docs/C17.md. *)
+   power-up with an always-ready consumer.  Kept as an independent cross-check of the universal theorems above (it evaluates the
+   model; it does not use the invariant). *)
 Theorem link_delivers_partial :
   (forall n b, 2 <= n <= 10 -> 0 <= b < 256 ->
      link_accepted n link_init (one_byte n b) = [b] /\ link_delivered n link_init (one_byte n b) = [b]) /\
@@ -130,6 +163,24 @@ Example recovery_phase_instance :
   map cgr_sample (runs (fun c rx => cgr_step 3 c rx 0) (cgr_step 3 c 0 0) [0; 0; 1; 1; 0; 1; 0; 0; 1; 1]) = [0; 0; 1; 0; 0; 0; 0; 0; 1; 0].
 Proof. vm_compute. unfold isbit. repeat split; auto; discriminate. Qed.
 
+Example link_delivers_instance :                                   (* ratio 4; three bytes back to back; consumer ready every third clock *)
+  let rd (k : nat) := if (Nat.modulo k 3 =? 0)%nat then 1 else 0 in
+  let ins := map (fun k => {| li_valid := 1; li_v := 37 + Z.of_nat (k / 50); li_ready := rd k |}) (seq 0 120) in
+  let quiet := map (fun k => {| li_valid := 0; li_v := 0; li_ready := rd k |}) (seq 0 60) in
+  let evs := link_events 2 link_init (ins ++ quiet) in
+  Forall (fun i => 0 <= li_v i < 256) ins /\ Forall quiet_in quiet /\ 24 * 2 + 8 <= Z.of_nat (length quiet) /\
+  keeps_up 2 evs /\ hc_run 2 evs = 2 /\ link_accepted 2 link_init (ins ++ quiet) = [37; 37; 38].
+Proof.
+  cbv zeta. split; [|split; [|split; [|split; [|split]]]].
+  - apply Forall_forall. intros i Hi. apply in_map_iff in Hi as (k & <- & Hk). apply in_seq in Hk. cbn [li_v].
+    assert (k / 50 < 3)%nat by (apply Nat.div_lt_upper_bound; lia). lia.
+  - apply Forall_forall. intros i Hi. apply in_map_iff in Hi as (k & <- & _). unfold quiet_in. cbn. lia.
+  - vm_compute. discriminate.
+  - vm_compute. repeat split; intros; try discriminate; auto.
+  - vm_compute. reflexivity.
+  - vm_compute. reflexivity.
+Qed.
+
 Print Assumptions ser_frame.
 Print Assumptions des_frame.
 Print Assumptions sw_receiver_8n1.
@@ -137,5 +188,8 @@ Print Assumptions tx_pulse_train.
 Print Assumptions recovery_phase.
 Print Assumptions sample_reads_level.
 Print Assumptions link_delivers_partial.
+Print Assumptions link_never_loses.
+Print Assumptions link_delivers.
+Print Assumptions link_delivers_always_ready.
 Print Assumptions des_all_pacings_refuted.
 Print Assumptions link_all_pacings_refuted.
